@@ -21,7 +21,7 @@ func init() {
 	core.Register(&core.Check{
 		ID:    "C02",
 		Level: "exploration",
-		Rule: "three streams of accepted programs executed under the recording platform with the dynamic type-conformance monitor on the verif evaluation hook: (1) generated programs with hostile values (NaN, infinities, -0, huge, fractional, negative numbers; empty and non-ASCII strings; nested composites; values through any; wrong assertions; unsafe indices; every non-graphics built-in), (2) accepted 1-3 token mutants of corpus and generated programs, (3) the corpus, (4) targeted families: == / != between any values of different dynamic types (directly and nested in []any / {}any) and typed functions ending in if/else-if/else chains with returns removed from random branches (whatever the parser accepts is run); with scripted input and synthetic events for handlers. " +
+		Rule: "three streams of accepted programs executed under the recording platform with the dynamic type-conformance monitor on the verif evaluation hook: (1) generated programs with hostile values (NaN, infinities, -0, huge, fractional, negative numbers; empty and non-ASCII strings; nested composites; values through any; wrong assertions; unsafe indices; every non-graphics built-in), (2) accepted 1-3 token mutants of corpus and generated programs, (3) the corpus, (4) targeted families: == / != between any values of different dynamic types (directly and nested in []any / {}any) and typed functions ending in if/else-if/else chains with returns removed from random branches (whatever the parser accepts is run), valid programs with one rule-breaking edit from the C05 catalogue (run if the parser accepts them); with scripted input and synthetic events for handlers. " +
 			"distinct = distinct accepted program texts that executed at least one evaluation step",
 		Assumptions: []string{
 			"allowed ends: normal completion, Evy panic (errors.Is ErrPanic), exit, failed tests, external stop (only the harness's yield budget raises it)",
@@ -228,7 +228,26 @@ func c02Run(c *core.Ctx, i int) {
 	p := c.State.(*srcPool)
 	r := c.Rng
 	if i%16 == 15 { // stream 4: targeted families
-		switch r.Intn(4) {
+		switch r.Intn(6) {
+		case 4, 5:
+			// almost valid programs: a valid base with one rule-breaking edit (the C05 catalogue). The
+			// parser should reject them; whatever it accepts must still run soundly
+			base := c05Base(c)
+			ls := classifyLines(base)
+			edits := c05Edits()
+			for try := 0; try < 40; try++ {
+				e := edits[r.Intn(len(edits))]
+				text, ok := e.apply(ls, r.Intn(len(ls)))
+				if !ok {
+					continue
+				}
+				c.Event("almost_valid_programs", 1)
+				if acceptedQuiet(text) {
+					c.Cover("stream", "almost-valid-accepted")
+					soundRun(c, text, "valid program with one rule-breaking edit ("+e.kind+")")
+				}
+			}
+			return
 		case 2:
 			c.Cover("stream", "shadowing")
 			soundRun(c, gen.Print(shadowProgram(r), gen.RandomLayout(rand.New(rand.NewSource(r.Int63())))), "shadowing family")
